@@ -26,6 +26,7 @@ struct GenFlags
     bool nul_bytes = false;      // strings with embedded NUL / invalid UTF-8
     bool no_path = true;         // occasionally omit relative_path
     bool nonfinite = false;      // NaN / inf doubles
+    bool rich = false;           // every analysis field populated (rate, count, grid, cues, loops, waveform)
 };
 
 inline double bits_to_double(uint64_t b)
@@ -429,6 +430,48 @@ inline djinterop::track_snapshot gen_snapshot(uint64_t seed, int size,
         rec = (size_t)ext.size;
     }
     s.waveform = gen_waveform(r, size, f, rec);
+    if (f.rich)
+    {
+        // a fully analysed track: every piece of performance data present, so
+        // that setters with conditional statements issue all of them
+        static const double rr[] = {44100, 48000, 96000, 22050};
+        s.sample_rate = rr[r.below(4)];
+        s.sample_count = (unsigned long long)(*s.sample_rate) * (60 + r.below(400));
+        s.duration = std::chrono::milliseconds{(int64_t)(*s.sample_count / (unsigned long long)*s.sample_rate) * 1000};
+        if (!s.bpm)
+            s.bpm = (double)r.range(60, 180);
+        if (!s.average_loudness || *s.average_loudness == 0)
+            s.average_loudness = 0.5;
+        if (!s.key)
+            s.key = static_cast<musical_key>(r.below(24));
+        if (!s.main_cue || *s.main_cue <= 0)
+            s.main_cue = (double)r.range(1, 100000);
+        if (s.beatgrid.size() < 2)
+            s.beatgrid = {{0, (double)r.range(0, 5000)}, {(int)r.range(100, 400), (double)r.range(5000000, 9000000)}};
+        s.hot_cues.resize(8);
+        s.loops.resize(8);
+        for (int i = 0; i < 8; i += 3)
+        {
+            if (!s.hot_cues[i])
+                s.hot_cues[i] = hot_cue{"Cue " + std::to_string(i), (double)r.range(1, 1000000), gen_color(r)};
+            if (!s.loops[i])
+                s.loops[i] = loop{"Loop " + std::to_string(i), (double)r.range(1, 1000000), (double)r.range(1000000, 2000000), gen_color(r)};
+        }
+        if (s.waveform.empty())
+        {
+            auto ext = engine::calculate_high_resolution_waveform_extents(*s.sample_count, *s.sample_rate);
+            size_t n = (size_t)std::min<unsigned long long>(ext.size, 600);
+            s.waveform.resize(std::max<size_t>(n, 8));
+            for (auto& e : s.waveform)
+            {
+                uint64_t x = r.next();
+                e.low.value = (uint8_t)x;
+                e.mid.value = (uint8_t)(x >> 8);
+                e.high.value = (uint8_t)(x >> 16);
+                e.low.opacity = e.mid.opacity = e.high.opacity = 255;
+            }
+        }
+    }
     return s;
 }
 
